@@ -20,7 +20,7 @@ static void c20_gen(Tape &t, Case &c) {
     c.ops.push_back(o);
     if (o.k == "prob" || o.k == "col" || o.k == "row" || o.k == "route") continue;
     if (t.chance(1, 3)) c.ops.push_back(Op("bad").I(t.below((uint32_t)c07_nfuncs())).I(t.below(6)).I(t.below(3)));
-    if (t.chance(1, 4)) c.ops.push_back(Op("io").I(t.below(9)));
+    if (t.chance(1, 4)) c.ops.push_back(Op("io").I(t.below(13)).I(t.below(1000)));
     if (t.chance(1, 5)) c.ops.push_back(Op("display").I(t.below(4)));
   }
 }
@@ -147,8 +147,48 @@ static void c20_run(const Case &c, Result &r) {
         }
       }
     } else if (o.k == "io") {
-      int k = (int)o.i[0] % 9;
+      int k = (int)o.i[0] % 13;
+      long salt = o.i.size() > 1 ? o.i[1] : 0;
       switch (k) {
+      case 9: {   // a missing file whose path is several hundred characters long (short components): long message
+        std::string path;
+        for (int d = 0; d < 120 + (int)(salt % 100); d++) path += "dir/";
+        path += "missing_file.lp";
+        mpq_QSprob q = mpq_QSread_prob(path.c_str(), "LP");
+        if (q) mpq_QSfree_prob(q);
+        what = "QSread_prob(missing, long path)"; failing_call_seen = true; break;
+      }
+      case 10: case 11: {   // a malformed file whose offending line is more than a kilobyte long
+        bool mps = k == 11;
+        std::string line, text;
+        int terms = 100 + (int)(salt % 80);
+        if (!mps) {
+          for (int j = 0; j < terms; j++) line += strprintf(" + %d xvariable%d", j + 1, j);
+          text = "Minimize\n obj: xvariable0\nSubject To\n c1:" + line + " >= >= 3\nEnd\n";
+        } else {
+          for (int j = 0; j < terms; j++) line += strprintf("  field%d", j);
+          text = "NAME p\nROWS\n N obj\n G c1\nCOLUMNS\n x obj 1 c1 1\n x" + line + "\nRHS\nENDATA\n";
+        }
+        write_file(mps ? "c20_long.mps" : "c20_long.lp", text);
+        mpq_QSprob q = mpq_QSread_prob(mps ? "c20_long.mps" : "c20_long.lp", mps ? "MPS" : "LP");
+        if (q) mpq_QSfree_prob(q);
+        what = mps ? "QSread_prob(malformed MPS, long line)" : "QSread_prob(malformed LP, long line)"; failing_call_seen = true; break;
+      }
+      case 12: {   // the current problem written, damaged at a token boundary, and read again: varied diagnostics
+        mpq_QSwrite_prob(p, "c20_dmg.lp", "LP");
+        bool ok = false;
+        std::string text = read_file("c20_dmg.lp", &ok);
+        if (ok && text.size() > 10) {
+          size_t at = (size_t)(salt * 7919) % text.size();
+          while (at < text.size() && !isspace((unsigned char)text[at])) at++;
+          static const char *poison[] = {" @@ ", " >= <= ", " 1/0 ", "\nBounds\n zzz free\n", " : : "};
+          text = text.substr(0, at) + poison[salt % 5] + text.substr(at);
+          write_file("c20_dmg.lp", text);
+          mpq_QSprob q = mpq_QSread_prob("c20_dmg.lp", "LP");
+          if (q) mpq_QSfree_prob(q);
+        }
+        what = "QSread_prob(damaged own output)"; failing_call_seen = true; break;
+      }
       case 0: { mpq_QSprob q = mpq_QSread_prob("no_such_file.lp", "LP"); if (q) mpq_QSfree_prob(q); what = "QSread_prob(missing,LP)"; failing_call_seen = true; break; }
       case 1: { mpq_QSprob q = mpq_QSread_prob("no_such_file.mps", "MPS"); if (q) mpq_QSfree_prob(q); what = "QSread_prob(missing,MPS)"; failing_call_seen = true; break; }
       case 2: { mpq_QSprob q = mpq_QSread_prob("no_such_file.lp.gz", "LP"); if (q) mpq_QSfree_prob(q); what = "QSread_prob(missing,.gz)"; failing_call_seen = true; break; }
